@@ -53,7 +53,7 @@ STREAM_TYPES = ["string", "varint", "uint32", "boolean", "float", "bytes", "date
 
 
 def budget(tier):
-    return 10000 if tier == "quick" else 200000
+    return 30000 if tier == "quick" else 200000
 
 
 def wall_cap(tier):
